@@ -678,6 +678,7 @@ type Conn struct {
 	BytesRead     int
 	Role          string        // "dialer" or "accepted"
 	stalled       bool          // StallWrites: the other side has stopped reading and the window is full
+	room          int           // StallAfter: bytes the window still takes before writes block
 	unstall       chan struct{} // closed when the stall ends
 }
 
@@ -692,6 +693,16 @@ func (c *Conn) StallWrites(on bool) {
 		c.stalled = false
 		close(c.unstall)
 	}
+}
+
+// StallAfter is StallWrites(true) with a send window that still has room for n bytes: a Write longer than that
+// hands over its first n bytes and blocks with the rest; when its deadline passes it returns (n, timeout) - a
+// stream write that times out is not all-or-nothing.
+func (c *Conn) StallAfter(n int) {
+	c.StallWrites(true)
+	c.mu.Lock()
+	c.room = n
+	c.mu.Unlock()
 }
 
 func (c *Conn) writable() bool {
@@ -831,7 +842,19 @@ func (c *Conn) Write(p []byte) (int, error) {
 		return 0, timeoutErr{}
 	}
 	st, un, dl := c.stalled, c.unstall, c.wdl
-	c.mu.Unlock()
+	written := 0
+	if st && c.room > 0 {
+		k := min(c.room, len(p))
+		c.room -= k
+		c.mu.Unlock()
+		c.out.write(p[:k])
+		p, written = p[k:], k
+		if len(p) == 0 {
+			return written, nil
+		}
+	} else {
+		c.mu.Unlock()
+	}
 	if st {
 		if sc := c.n.Sched; sc != nil && sc.Managed() {
 			sc.Block("tcp-write-window-full", c.local.String(), c.writable)
@@ -853,18 +876,18 @@ func (c *Conn) Write(p []byte) (int, error) {
 		cl, dl := c.closedFlag, c.wdl
 		c.mu.Unlock()
 		if cl {
-			return 0, net.ErrClosed
+			return written, net.ErrClosed
 		}
 		if !dl.IsZero() && !time.Now().Before(dl) {
-			return 0, timeoutErr{}
+			return written, timeoutErr{}
 		}
 	}
 	if c.peer.isClosed() {
-		return 0, errors.New("simnet: write: broken pipe")
+		return written, errors.New("simnet: write: broken pipe")
 	}
 	c.out.write(p)
 
-	return len(p), nil
+	return written + len(p), nil
 }
 
 // Close closes this endpoint; the peer reads EOF after draining.
